@@ -17,6 +17,8 @@ mod proofrun;
 #[cfg(feature = "full")]
 mod scen_full;
 #[cfg(feature = "full")]
+mod scen_full2;
+#[cfg(feature = "full")]
 mod scen_proof;
 #[cfg(feature = "full")]
 mod stone_loader;
@@ -174,8 +176,22 @@ fn dispatch(ctx: &mut Ctx) {
         "C05" => scen_core::c05(ctx),
         "C06" => scen_core::c06(ctx),
         "C07" => scen_core::c07(ctx),
+        #[cfg(not(feature = "full"))]
         "C09" | "C09core" => scen_core::c09(ctx),
+        #[cfg(not(feature = "full"))]
+        "C08" | "C08core" => scen_core::c08(ctx),
+        #[cfg(feature = "full")]
+        "C09core" => scen_core::c09(ctx),
+        #[cfg(feature = "full")]
         "C08core" => scen_core::c08(ctx),
+        #[cfg(feature = "full")]
+        "C08" => scen_full2::c08(ctx),
+        #[cfg(feature = "full")]
+        "C09" => scen_full2::c09(ctx),
+        #[cfg(feature = "full")]
+        "C10" => scen_full2::c10(ctx),
+        #[cfg(feature = "full")]
+        "C11" => scen_full2::c11(ctx),
         #[cfg(feature = "full")]
         "C02" => scen_proof::c02(ctx),
         #[cfg(feature = "full")]
@@ -207,6 +223,9 @@ fn replay(rep: &serde_json::Value) -> Result<(bool, String), String> {
         }
         if scenario.starts_with("c13.") || scenario.starts_with("c14.") {
             return scen_full::replay(rep);
+        }
+        if scenario.starts_with("c08.") || scenario.starts_with("c09.") || scenario.starts_with("c10.") || scenario.starts_with("c11.") {
+            return scen_full2::replay(rep);
         }
     }
     Err(format!("unknown scenario {scenario}"))
